@@ -22,22 +22,93 @@ Proof.
   - inversion H; apply Nat.eqb_refl.
 Qed.
 
+(* induction principle for the nested value type *)
+Section UvInd.
+  Variable P : uv -> Prop.
+  Hypothesis HNone : P UNone.
+  Hypothesis HBool : forall b, P (UBool b).
+  Hypothesis HInt : forall z, P (UInt z).
+  Hypothesis HFloat : forall i r, P (UFloat i r).
+  Hypothesis HStr : forall s, P (UStr s).
+  Hypothesis HList : forall l, Forall P l -> P (UList l).
+  Hypothesis HTuple : forall l, Forall P l -> P (UTuple l).
+  Hypothesis HDict : forall l, Forall (fun p => P (fst p) /\ P (snd p)) l -> P (UDict l).
+  Hypothesis HObj : forall c r, P (UObj c r).
+  Fixpoint uv_ind' (v: uv) : P v :=
+    let go := fix go (l: list uv) : Forall P l :=
+      match l with [] => Forall_nil _ | x :: r => Forall_cons x (uv_ind' x) (go r) end in
+    match v with
+    | UNone => HNone | UBool b => HBool b | UInt z => HInt z | UFloat i r => HFloat i r | UStr s => HStr s
+    | UList l => HList l (go l)
+    | UTuple l => HTuple l (go l)
+    | UDict l => HDict l ((fix god (l: list (uv * uv)) : Forall (fun p => P (fst p) /\ P (snd p)) l :=
+                             match l with
+                             | [] => Forall_nil _
+                             | p :: r => Forall_cons p (match p as p0 return (P (fst p0) /\ P (snd p0)) with (k, x) => conj (uv_ind' k) (uv_ind' x) end) (god r)
+                             end) l)
+    | UObj c r => HObj c r
+    end.
+End UvInd.
+
+Definition leqb := fix leq (l1 l2: list uv) {struct l1} : bool :=
+  match l1, l2 with
+  | [], [] => true
+  | x :: r1, y :: r2 => uv_eqb x y && leq r1 r2
+  | _, _ => false end.
+Definition deqb := fix deq (l1 l2: list (uv * uv)) {struct l1} : bool :=
+  match l1, l2 with
+  | [], [] => true
+  | p1 :: r1, p2 :: r2 =>
+      match p1, p2 with (k1, v1), (k2, v2) => uv_eqb k1 k2 && uv_eqb v1 v2 && deq r1 r2 end
+  | _, _ => false end.
+
+Lemma uv_eqb_list : forall l l', uv_eqb (UList l) (UList l') = leqb l l'.
+Proof. reflexivity. Qed.
+Lemma uv_eqb_tuple : forall l l', uv_eqb (UTuple l) (UTuple l') = leqb l l'.
+Proof. reflexivity. Qed.
+Lemma uv_eqb_dict : forall l l', uv_eqb (UDict l) (UDict l') = deqb l l'.
+Proof. reflexivity. Qed.
+
+Lemma leqb_eq : forall l, Forall (fun a => forall b, uv_eqb a b = true -> a = b) l ->
+  forall l', leqb l l' = true -> l = l'.
+Proof.
+  induction 1 as [|x r Hx _ IH]; intros [|y r'] H; simpl in H; try discriminate; [reflexivity|].
+  apply andb_true_iff in H; destruct H as [H1 H2]. f_equal; [apply Hx; assumption | apply IH; assumption].
+Qed.
+
+Lemma deqb_eq : forall l, Forall (fun p => (forall b, uv_eqb (fst p) b = true -> fst p = b) /\
+                                            (forall b, uv_eqb (snd p) b = true -> snd p = b)) l ->
+  forall l', deqb l l' = true -> l = l'.
+Proof.
+  induction 1 as [|[k x] r [Hk Hx] _ IH]; intros [|[k' x'] r'] H; simpl in H; try discriminate; [reflexivity|].
+  apply andb_true_iff in H; destruct H as [H12 H3]. apply andb_true_iff in H12; destruct H12 as [H1 H2].
+  simpl in *. rewrite (Hk _ H1), (Hx _ H2), (IH _ H3). reflexivity.
+Qed.
+
 Lemma uv_eqb_eq : forall a b, uv_eqb a b = true -> a = b.
 Proof.
-  intros a b; destruct a, b; simpl; intro H; try discriminate; try reflexivity.
-  - apply Bool.eqb_prop in H; congruence.
-  - apply Z.eqb_eq in H; congruence.
-  - apply andb_true_iff in H; destruct H as [H1 H2]. apply String.eqb_eq in H2; subst.
+  induction a as [| b0 | z | iv r | s | l IH | l IH | l IH | c r] using uv_ind'; intros b H;
+    destruct b; try discriminate H; try reflexivity.
+  - simpl in H. apply Bool.eqb_prop in H; congruence.
+  - simpl in H. apply Z.eqb_eq in H; congruence.
+  - simpl in H. apply andb_true_iff in H; destruct H as [H1 H2]. apply String.eqb_eq in H2; subst.
     destruct iv, iv0; try discriminate; [apply Z.eqb_eq in H1; subst|]; reflexivity.
-  - apply String.eqb_eq in H; congruence.
-  - apply andb_true_iff in H; destruct H as [H1 H2].
+  - simpl in H. apply String.eqb_eq in H; congruence.
+  - rewrite uv_eqb_list in H. f_equal. eapply leqb_eq; eassumption.
+  - rewrite uv_eqb_tuple in H. f_equal. eapply leqb_eq; eassumption.
+  - rewrite uv_eqb_dict in H. f_equal. eapply deqb_eq; eassumption.
+  - simpl in H. apply andb_true_iff in H; destruct H as [H1 H2].
     apply String.eqb_eq in H1; apply String.eqb_eq in H2; congruence.
 Qed.
 
 Lemma uv_eqb_refl : forall a, uv_eqb a a = true.
 Proof.
-  destruct a; simpl; auto using Bool.eqb_reflx, Z.eqb_refl, String.eqb_refl.
+  induction a as [| b0 | z | iv r | s | l IH | l IH | l IH | c r] using uv_ind'; simpl;
+    auto using Bool.eqb_reflx, Z.eqb_refl, String.eqb_refl.
   - destruct iv; rewrite ?Z.eqb_refl, String.eqb_refl; reflexivity.
+  - change (leqb l l = true). induction IH as [|x r Hx _ IHr]; simpl; [reflexivity | rewrite Hx, IHr; reflexivity].
+  - change (leqb l l = true). induction IH as [|x r Hx _ IHr]; simpl; [reflexivity | rewrite Hx, IHr; reflexivity].
+  - change (deqb l l = true). induction IH as [|[k x] r [Hk Hx] _ IHr]; simpl in *; [reflexivity | rewrite Hk, Hx, IHr; reflexivity].
   - rewrite !String.eqb_refl; reflexivity.
 Qed.
 
